@@ -285,6 +285,7 @@ func run(e *core.Env) {
 		return false, ""
 	}
 	var knownTo []m.PublicAddress // valid identities V has accepted so far in this run
+	var knownPr []presented       // ... with the keys they were presented with
 	judge := func(entry string, pr presented) {
 		panics(entry + ": " + pr.what)
 		got, how := known(pr.pa.IP)
@@ -318,6 +319,7 @@ func run(e *core.Env) {
 			e.Probe("accepted_via_" + entry)
 			if got && pr.pa.Easing == 0 && len(pr.pa.PublicKey) == ed25519.PublicKeySize {
 				knownTo = append(knownTo, pr.pa)
+				knownPr = append(knownPr, pr)
 			}
 		}
 	}
@@ -344,6 +346,30 @@ func run(e *core.Env) {
 		switch tp.Pick(4, 4, 3, 4, 1) {
 		case 0: // (a) peering request
 			pr := next(true, false)
+			// A router V already knows presents itself again - with its genuine key, which also
+			// signs, but with another hash algorithm, key-type name or easing value than the ones
+			// its address is derived from. What V has on record for an address does not make the
+			// presented combination a valid identity: the request is refused (V ends the
+			// connection) like the same identity at first contact.
+			again := false
+			if len(knownPr) > 0 && tp.Chance(1, 4) {
+				k := knownPr[tp.Intn(len(knownPr))]
+				pr = presented{pa: k.pa, priv: k.priv}
+				pr.pa.PublicKey = append(ed25519.PublicKey(nil), k.pa.PublicKey...)
+				switch tp.Intn(3) {
+				case 0:
+					pr.pa.Hash = []crop.Hash{"SHA2_256", "BLAKE2b_256", "BLAKE4", ""}[tp.Intn(4)]
+					pr.what = fmt.Sprintf("known router again, hash algorithm %q", string(pr.pa.Hash))
+				case 1:
+					pr.pa.Type = []crop.KeyPairType{"Ed448", "ed25519", ""}[tp.Intn(3)]
+					pr.what = fmt.Sprintf("known router again, key type %q", string(pr.pa.Type))
+				default:
+					pr.pa.Easing += uint64(1 + tp.Intn(1000))
+					pr.what = "known router again, another easing value"
+				}
+				again = true
+				e.Probe("known_router_presents_changed_identity_fields")
+			}
 			req := peeringRequest{RouterVersion: "sim", Address: pr.pa, Challenge: tp.Bytes(32), LinkVersion: 1}
 			body, _ := cbor.Marshal(&req)
 			if len(body) > 9000 || !pr.pa.IP.IsValid() {
@@ -380,7 +406,22 @@ func run(e *core.Env) {
 				cn.DeliverBytes(pair.B, rec, false)
 			}
 			pump(10 * time.Millisecond)
-			judge(entry, pr)
+			if again {
+				vEnd := pair.B
+				if outgoing {
+					vEnd = pair.A
+				}
+				panics(entry + ": " + pr.what)
+				e.Ev("present-again", uint64(len(entry)), b2u(vEnd.IsClosed()))
+				e.Case(0x01, uint64(len(entry)), uint64(len(pr.what)), 2)
+				if !vEnd.IsClosed() {
+					e.Fail("corrupted-identity-accepted/"+entry+"/known-router-again", "identity of a %s presented via %s: V goes on with the handshake instead of refusing the request", pr.what, entry)
+				}
+				e.Fault("corrupt_field")
+				e.Probe("rejected_via_" + entry)
+			} else {
+				judge(entry, pr)
+			}
 			_ = pair.A.Close()
 			_ = pair.B.Close()
 			pump(10 * time.Millisecond)
